@@ -488,9 +488,9 @@ func main() {
 	if tier == "replay" {
 		cases = readCases(os.Args[3])
 	} else {
-		nSmall, nRandom, nmax, nDry := 700, 1500, 8, 40
+		nSmall, nRandom, nmax, nDry := 1800, 4800, 8, 150
 		if tier == "thorough" {
-			nSmall, nRandom, nmax, nDry = 12000, 24000, 12, 400
+			nSmall, nRandom, nmax, nDry = 20000, 60000, 12, 1500
 		}
 		if tier == "search" {
 			nSmall, nRandom, nmax, nDry = 1500, 4000, 10, 0
